@@ -11,11 +11,11 @@ SHARDS = 8
 
 # coarse classes of the real error texts, only used to compare the ORDER of the checks with the model (drift notes)
 ERR_CLASSES = [
+    ("invalid-vc", r"invalid VC"),
     ("revoked", r"revoked"),
     ("untrusted", r"untrusted"),
     ("presenter-not-subject", r"presented by subject|presenter is credential subject"),
     ("holder-not-subject", r"holder must equal"),
-    ("invalid-vc", r"invalid VC"),
     ("not-valid-at-time", r"not valid at|\"exp\" not satisfied|\"nbf\" not satisfied|\"iat\" not satisfied"),
     ("issuer-unresolvable", r"could not validate issuer"),
     ("vm-not-of-issuer", r"verification method is not of issuer"),
@@ -81,9 +81,29 @@ def panic_site(text):
     return m.group(2) if m else "unknown"
 
 
-def judge(rep, prop, inp, by_id, results, stats, samples):
-    """Evaluates the property statement on the real verdicts. by_id: id -> {case, req, impl}."""
-    base_inp = {k: v for k, v in inp.items() if k != "cases"}
+def finding_class(fmt, comp):
+    """names the kind of accepted tampering (mirrors findingClass of the driver)"""
+    if comp["mclass"] == "add-undefined-member":
+        return "add-undefined-member"
+    if comp["mclass"] == "swap" and comp["pclass"] == "embedded-list" and fmt == "ldp" and comp["efmt"] == "jwt":
+        return "swap-embedded-jwt-credential"
+    return comp["mclass"]
+
+
+def mut_key(kind, fmt, comp):
+    return (kind, fmt, comp["where"], comp["efmt"], comp["mclass"], comp["pclass"])
+
+
+def judge(rep, prop, inp, by_id, results, stats, samples, replay_obj=None):
+    """Evaluates the property statement on the real verdicts. by_id: id -> {case, req, impl}.
+    replay_obj: when re-executing a saved replay, that object is what a violation refers to again."""
+    base_inp = {k: v for k, v in inp.items() if k not in ("cases", "mut_req")}
+    # requirement of every abstract mutation class (for the components of two-field mutations)
+    mut_req = dict(inp.get("mut_req") or {})
+    for ci in by_id.values():
+        c = ci["case"]
+        if c.get("fam") == "mut":
+            mut_req["|".join(mut_key(c["kind"], c["fmt"], c))] = ci["req"]
     for r in results:
         ci = by_id.get(r["id"])
         stats["evaluations"] += r.get("evals", 0)
@@ -95,7 +115,7 @@ def judge(rep, prop, inp, by_id, results, stats, samples):
         if r.get("error"):
             if r["error"].startswith("OWN-OUTPUT"):
                 rep.violation(dict(kind="own-output-rejected", family=c.get("fam", "mut"), format=c.get("fmt", "")),
-                              dict(property=prop, violation=r["error"], input=one_case))
+                              replay_obj or dict(property=prop, violation=r["error"], input=one_case))
             else:
                 rep.inconclusive.append("case %s: %s" % (r["id"], r["error"][:300]))
             continue
@@ -107,12 +127,16 @@ def judge(rep, prop, inp, by_id, results, stats, samples):
                 rep.inconclusive.append("case %s: %s" % (r["id"], run["note"][:300]))
                 continue
             cls = "ok" if v.get("accept") else err_class(v.get("err"))
-            replay = dict(property=prop, input=dict(one_case, method_mode="all"), observed=run, required=req)
+            replay = replay_obj or dict(property=prop, input=dict(one_case, method_mode="all"), observed=run, required=req)
             if v.get("panic"):
                 rep.violation(dict(kind="panic", site=panic_site(v["panic"])), replay)
                 continue
             if v.get("accept") and req == "reject":
-                rep.violation(dict(kind="accepted-invalid", family=c["fam"], format=c["fmt"], failing=impl), replay)
+                failing = sorted(ci.get("failing") or [])
+                sig = dict(kind="accepted-invalid", family=c["fam"], format=c["fmt"], failing="+".join(failing))
+                if "unauthorised-key" in failing:   # which resolver and which history let the key through
+                    sig.update(method=run["method"], kh=c["kh"])
+                rep.violation(sig, replay)
             elif not v.get("accept") and req == "accept":
                 rep.violation(dict(kind="own-output-rejected", family=c["fam"], format=c["fmt"], reason=cls), replay)
             elif (impl == "ok") != bool(v.get("accept")):
@@ -142,21 +166,31 @@ def judge(rep, prop, inp, by_id, results, stats, samples):
                 if p.get("pair"):
                     sel["pair"] = p["pair"]
                 rep.violation(dict(kind="panic", site=panic_site(p["panic"])),
-                              dict(property=prop, input=dict(base_inp, cases=[], only=sel), observed=p))
+                              replay_obj or dict(property=prop, input=dict(base_inp, cases=[], only=sel), observed=p))
             if m["accepted_changed_n"]:
-                if req == "reject" or r["id"] in ("pairs", "only"):
-                    for h in m["accepted_changed"]:
-                        fmt = h["doc"].split("-")[1]
-                        sel = dict(doc=h["doc"], method=h["method"], path=h["path"], op=h["op"])
-                        if h.get("pair"):
-                            sel["pair"] = h["pair"]
-                        where = c.get("pclass") or "multi"
-                        rep.violation(dict(kind="tamper-accepted", format=fmt, mutation=h["class"], where=where),
-                                      dict(property=prop, input=dict(base_inp, cases=[], only=sel), observed=h))
+                semantic = 0
+                for h in m["accepted_changed"]:
+                    kind, fmt = h["doc"].split("-")[0], h["doc"].split("-")[1]
+                    sel = dict(doc=h["doc"], method=h["method"], path=h["path"], op=h["op"])
+                    if h.get("pair"):
+                        sel["pair"] = h["pair"]
+                    rp = replay_obj or dict(property=prop, input=dict(base_inp, cases=[], only=sel, mut_req=mut_req), observed=h)
+                    if h.get("components"):
+                        # a two-field mutation must be refused if one of its components ALONE changes what the node reports
+                        # and belongs to a class the statement protects
+                        for comp in h["components"]:
+                            if comp["changes_view"] and mut_req.get("|".join(mut_key(kind, fmt, comp)), "any") == "reject":
+                                semantic += 1
+                                rep.violation(dict(kind="tamper-accepted", format=fmt, mutation=finding_class(fmt, comp), where="multi"), rp)
+                    elif req == "reject" or (r["id"] == "only" and mut_req.get("|".join(
+                            mut_key(kind, fmt, dict(where=h.get("where", ""), efmt=h.get("efmt", ""), mclass=h.get("mclass", ""), pclass=h.get("pclass", "")))), "reject") == "reject"):
+                        semantic += 1
+                        rep.violation(dict(kind="tamper-accepted", format=fmt, mutation=h["class"], where=h.get("pclass") or c.get("pclass") or ""), rp)
+                if semantic:
                     stats["mut_accepted_semantic"] += m["accepted_changed_n"]
                 else:
                     stats["mut_accepted_unconstrained"] += m["accepted_changed_n"]
-                    key = "%s/%s" % (c.get("mclass"), c.get("pclass"))
+                    key = "%s/%s" % (c.get("mclass", "pairs"), c.get("pclass", ""))
                     stats["unconstrained_classes"][key] = stats["unconstrained_classes"].get(key, 0) + m["accepted_changed_n"]
             if impl == "ok" and m["executed"] and not m["accepted_changed_n"] and not m["accepted_same_view"]:
                 stats["drift_verdict"] += 1
@@ -182,7 +216,7 @@ def run(prop, tier, seed, replay=None):
         res = vlib.run_driver(binary, inp, timeout=300)
         for r in res:
             print(json.dumps(r)[:3000])
-        judge(rep, prop, inp, by_id, res, stats, samples)
+        judge(rep, prop, inp, by_id, res, stats, samples, replay_obj=obj)
         return rep.finish()
 
     quick = tier == "quick"
@@ -208,7 +242,7 @@ def run(prop, tier, seed, replay=None):
     models.append(dict(cfg="Verify.c01.gen.cfg", states=gen.distinct, transitions=gen.generated, cases=len(gen.printed), wall_s=round(gen.wall, 1)))
     cases = []
     for p in gen.printed:
-        cases.append(dict(id=case_id(p["case"]), case=p["case"], req=p["req"], impl=p["impl"]))
+        cases.append(dict(id=case_id(p["case"]), case=p["case"], req=p["req"], impl=p["impl"], failing=p.get("failing") or []))
     cases.sort(key=lambda x: x["id"])
     if len({c["id"] for c in cases}) != len(cases) or not cases:
         raise Inconclusive("case enumeration is not a set of %d distinct cases" % len(cases))
